@@ -830,6 +830,55 @@ func (g *gen) manyKindsCase(id string) *EvalCase {
 	return c
 }
 
+// segArrayCase: data that was never preprocessed (hand-built structs) meets array-valued context
+// attributes: every element is tested against every clause value, in a flag rule and in a segment
+// rule, with the operators that have precomputed operands (regex, dates, versions, key sets).
+func (g *gen) segArrayCase(id string) *EvalCase {
+	r := g.r
+	c := &EvalCase{ID: id, Kind: "eval", Opts: WOpts{Log: r.chance(2, 3), Rec: true}}
+	type opv struct {
+		op   string
+		vals []JV
+		elem []JV
+	}
+	o := pick(r, []opv{
+		{"in", []JV{jStr("b"), jStr("c"), jNum(3)}, []JV{jStr("a"), jStr("b"), jNum(3), jStr("z")}},
+		{"matches", []JV{jStr("^a+$"), jStr("b.c")}, []JV{jStr("x"), jStr("aaa"), jStr("bxc")}},
+		{"before", []JV{jStr("2020-01-01T00:00:00Z"), jNum(1500000000000)}, []JV{jNum(1600000000000), jStr("2019-06-01T00:00:00Z"), jNum(1)}},
+		{"after", []JV{jNum(1500000000000)}, []JV{jNum(1), jStr("2021-01-01T00:00:00+01:00")}},
+		{"semVerGreaterThan", []JV{jStr("2.0.0"), jStr("1.5")}, []JV{jStr("1.0.0"), jStr("2.1.0"), jStr("x")}},
+		{"startsWith", []JV{jStr("ab"), jStr("q")}, []JV{jStr("xab"), jStr("abc")}},
+	})
+	n := 2 + r.intn(len(o.elem)-1)
+	arr := append([]JV{}, o.elem[:n]...)
+	if r.bool() {
+		arr = shuffled(r, arr)
+	}
+	sc := g.sctx("user")
+	sc.Attrs = append([]WAttr{{"tags", jArr(arr...)}}, sc.Attrs...)
+	if r.chance(1, 5) {
+		sc.Attrs[0].V = arr[0] // scalar: the comparison case
+	}
+	c.Ctx = WCtx{T: "single", C: &sc}
+	cl := WClause{Attr: mkRef("ref", "tags"), Op: o.op, Vals: o.vals, Neg: r.chance(1, 4)}
+	seg := simpleSegment("seg-array")
+	seg.Form = pick(r, []string{"plain", "plain", "pre", "json"})
+	seg.Rules = []WSegRule{{ID: "sr", Clauses: []WClause{cl}, By: mkRef("", "")}}
+	f := simpleFlag("flag", true, 0, 3)
+	f.Form = pick(r, []string{"plain", "plain", "pre", "json"})
+	f.Rules = []WFlagRule{}
+	if r.bool() {
+		f.Rules = append(f.Rules, WFlagRule{ID: "direct", Clauses: []WClause{cl, {Attr: mkRef("ref", "tags"), Op: "in", Vals: []JV{jStr("never")}}},
+			VR: WVR{V: ip(2), RO: WRollout{Vars: []WWV{}, By: mkRef("", "")}}})
+	}
+	f.Rules = append(f.Rules, WFlagRule{ID: "via-segment", Clauses: []WClause{{Attr: mkRef("", ""), Op: "segmentMatch", Vals: []JV{jStr(seg.Key)}}},
+		VR: WVR{V: ip(1), RO: WRollout{Vars: []WWV{}, By: mkRef("", "")}}})
+	c.Flag = f
+	c.Store.Flags, c.Store.Segments = []WFlag{}, []WSegment{seg}
+	c.Tags = []string{"segarray"}
+	return c
+}
+
 // nearThreshold searches candidate context keys for one whose bucket, in units of 1/100000, is as
 // close as possible to an integer: the inputs on which the exact shape of the single-precision
 // threshold arithmetic (divide the weight, or multiply the bucket; accumulate in float32 or in int)
@@ -1305,6 +1354,9 @@ func genStream0(name string, r *rng, id string) *EvalCase {
 	case "manykinds":
 		g.p = profiles["bigseg"]
 		return g.manyKindsCase(id)
+	case "segarray":
+		g.p = profiles["segments"]
+		return g.segArrayCase(id)
 	case "wide":
 		g.p = profiles["wellformed"]
 		return g.wideCase(id)
